@@ -22,13 +22,11 @@ package main
 import (
 	"fmt"
 	"math/rand"
-	"os"
 	"reflect"
 	"regexp"
 	"sort"
 	"strconv"
 	"strings"
-	"time"
 
 	"github.com/cosmos72/gomacro/fast"
 )
@@ -773,10 +771,7 @@ func c07probe() string {
 }
 
 func c07prepare(ops []string) {
-	t0 := time.Now()
-	defer func() { fmt.Fprintf(os.Stderr, "c07prepare: %v\n", time.Since(t0)) }()
 	c07cfg = c07probe()
-	fmt.Fprintf(os.Stderr, "c07probe: %v\n", time.Since(t0))
 	for i, op := range ops {
 		f := strings.SplitN(op, " ", 3)
 		if len(f) == 3 && f[0] == "T" {
@@ -981,9 +976,10 @@ func c07exec(op string) Result {
 			}
 		}
 		res.Key = "runtime-panic-value-" + kind
-	case c07onlyEmitsDiffer(res.Out, cw) && (feat["defer-method-value"] || strings.Contains(op, "L3,")):
+	// the two specific keys are only used while the probe says the code under test lacks the repair
+	case strings.Contains(c07cfg, "m0") && c07onlyEmitsDiffer(res.Out, cw) && (feat["defer-method-value"] || strings.Contains(op, "L3,")):
 		res.Key = "method-value-receiver-late"
-	case feat["nested-panic-recovered-in-defer"]:
+	case strings.Contains(c07cfg, "s0") && feat["nested-panic-recovered-in-defer"]:
 		res.Key = "nested-recover-loses-outer-panic"
 	default:
 		res.Key = "event-log-differs"
